@@ -17,7 +17,9 @@ import (
 	"github.com/slackhq/nebula/cert"
 	"github.com/slackhq/nebula/config"
 	"github.com/slackhq/nebula/firewall"
+	"github.com/slackhq/nebula/header"
 	"github.com/slackhq/nebula/iputil"
+	"github.com/slackhq/nebula/noiseutil"
 )
 
 // packages whose types are named by contracts
@@ -28,6 +30,8 @@ var (
 	_ firewall.Packet
 	_ *config.C
 	_ = iputil.SpecIsExt
+	_ = noiseutil.RejectAfterMessages
+	_ *header.H
 )
 
 // ---- contract vocabulary (evaluated symbolically by govc) ----
@@ -41,6 +45,7 @@ func elems[T any](s []T, r ...int) bool { return true }
 func fresh[T any](p *T) bool            { return true }
 func clock() time.Time                  { return time.Now() }
 func same[T any](a, b T) bool           { return true }
+func sameArray[T any](a, b []T) bool    { return true }
 func typed[T any](p *T) bool            { return true }
 func locked[T any](m *T) bool           { return true }
 func mapof[K comparable, V any](m map[K]V) bool { return true }
@@ -229,7 +234,7 @@ func specInCirc(q, start, count, length uint64) bool {
 // C20 — packet classification matches an independent parser
 // =====================================================================
 //
-//@ load ./iputil
+//@ load ./iputil ./header ./noiseutil
 //
 // specParseV4 / specParseV6 are written from RFC 791 / RFC 8200 (the IPv6
 // chain walk is iputil.SpecIPv6Find), not from the code: what an independent
@@ -777,6 +782,302 @@ func specNeedsRehandshake(cm *connectionManager, h *HostInfo) bool {
 //@   ensures[subject]  implies(result0 == closeTunnel || result0 == deleteTunnel || result0 == sendTestPacket || result0 == tryRehandshake || result0 == swapPrimary || result0 == migrateRelays, result1 == hi && hi != nil)
 //@   ensures[rearmed]  implies(hi != nil && !invalid && !exhausted && inT, !hi.pendingDeletion.Load())
 //@   ensures[probing]  implies(result0 == sendTestPacket, hi.pendingDeletion.Load())
+
+// =====================================================================
+// C12 — a data packet is delivered at most once
+// C14 — unauthenticated packets have no effect
+// =====================================================================
+//
+// Decrypt / VerifyRelay: a nil error means the AEAD authenticated exactly this
+// packet's header bytes (as additional data), body and header counter (as
+// nonce) under the tunnel's receive key, AND the replay window accepted the
+// counter — which, by the window's contract (C11), happens at most once per
+// counter for any history H of accepted counters. The window is only touched
+// with decryptLock held, and the lock is released on every path, so the
+// accepting Update is the linearisation point for concurrent decrypts of one
+// counter. readOutsidePackets (a `closed` contract: every call it makes is
+// accounted for) performs every action on tunnel, lighthouse, relay or tun
+// state (`acted`), and every delivery to the tun (`delivered`), only after
+// such an acceptance (`accepted`), at most one per packet.
+
+//@ func github.com/slackhq/nebula/noiseutil.(CipherState).DecryptDanger
+//@   trusted AEAD open: a nil error means the tag authenticates additional data and ciphertext under this key and nonce n
+//@   effect authenticated if result1 == nil
+//@   assigns elems(out, 0, cap(out)), elems(nb)
+
+// Interference: whenever decryptLock is acquired the window holds arbitrary
+// contents that satisfy the representation invariant for the history of
+// accepted counters at that moment — H0 in the first critical section (Check),
+// H in the second (Update); the two histories are unrelated, so nothing Check
+// learned survives to the second section (other goroutines may have accepted
+// the same counter in between).
+//@ func (*ConnectionState).Decrypt
+//@   props C12 C14
+//@   ghost H0 func(uint64) bool
+//@   ghost H func(uint64) bool
+//@   ghost k uint64
+//@   ghost sections int = 0
+//@   ghost authenticated int = 0
+//@   requires cs != nil && l != nil && cs.window != nil && cs.dKey != nil && specBitsWF(cs.window) && len(packet) >= 16
+//@   requires[free] !locked(&cs.decryptLock)
+//@   atcall (*Mutex).Lock havoc cs.window.current, elems(cs.window.bits)
+//@   atcall (*Mutex).Lock count sections
+//@   atcall (*Mutex).Lock assume implies(sections == 1, specRepAt(cs.window, messageCounter, H0(messageCounter)) && H0(cs.window.current)) && implies(sections == 2, specRepAt(cs.window, k, H(k)) && specRepAt(cs.window, messageCounter, H(messageCounter)) && H(cs.window.current))
+//@   callghost Check H = H0
+//@   callghost Update H = H
+//@   callghost Update k = k
+//@   callrequires (*Bits).Check locked(&cs.decryptLock) && arg2 == messageCounter && sections == 1
+//@   callrequires (*Bits).Update locked(&cs.decryptLock) && arg2 == messageCounter && authenticated == 1 && sections == 2
+//@   callrequires DecryptDanger same(arg0, cs.dKey) && arg4 == messageCounter && sameArray(arg2, packet) && sameArray(arg3, packet) && len(arg2) == 16 && len(arg3) == len(packet)-16 && !locked(&cs.decryptLock)
+//@   effect accepted if result1 == nil
+//@   ensures[once]     implies(result1 == nil, sections == 2 && !H(messageCounter) && authenticated == 1)
+//@   ensures[auth]     authenticated <= 1
+//@   ensures[rep]      implies(sections == 2, specRepAt(cs.window, k, H(k) || (k == messageCounter && result1 == nil)) && specBitsWF(cs.window))
+//@   ensures[top]      implies(sections == 2, H(cs.window.current) || (cs.window.current == messageCounter && result1 == nil))
+//@   ensures[released] !locked(&cs.decryptLock)
+
+//@ func (*ConnectionState).VerifyRelay
+//@   props C12 C14
+//@   ghost H0 func(uint64) bool
+//@   ghost H func(uint64) bool
+//@   ghost k uint64
+//@   ghost sections int = 0
+//@   ghost authenticated int = 0
+//@   requires cs != nil && l != nil && cs.window != nil && cs.dKey != nil && specBitsWF(cs.window) && len(packet) >= 16+cs.dKey.Overhead()
+//@   requires[free] !locked(&cs.decryptLock)
+//@   atcall (*Mutex).Lock havoc cs.window.current, elems(cs.window.bits)
+//@   atcall (*Mutex).Lock count sections
+//@   atcall (*Mutex).Lock assume implies(sections == 1, specRepAt(cs.window, messageCounter, H0(messageCounter)) && H0(cs.window.current)) && implies(sections == 2, specRepAt(cs.window, k, H(k)) && specRepAt(cs.window, messageCounter, H(messageCounter)) && H(cs.window.current))
+//@   callghost Check H = H0
+//@   callghost Update H = H
+//@   callghost Update k = k
+//@   callrequires (*Bits).Check locked(&cs.decryptLock) && arg2 == messageCounter && sections == 1
+//@   callrequires (*Bits).Update locked(&cs.decryptLock) && arg2 == messageCounter && authenticated == 1 && sections == 2
+//@   callrequires DecryptDanger same(arg0, cs.dKey) && arg4 == messageCounter && sameArray(arg2, packet) && sameArray(arg3, packet) && len(arg2)+len(arg3) == len(packet) && !locked(&cs.decryptLock)
+//@   effect accepted if result == nil
+//@   ensures[once]     implies(result == nil, sections == 2 && !H(messageCounter) && authenticated == 1)
+//@   ensures[auth]     authenticated <= 1
+//@   ensures[rep]      implies(sections == 2, specRepAt(cs.window, k, H(k) || (k == messageCounter && result == nil)) && specBitsWF(cs.window))
+//@   ensures[released] !locked(&cs.decryptLock)
+
+// Everything readOutsidePackets can do to tunnel, lighthouse, relay or tun
+// state goes through one of these callees; each is assumed to be exactly that
+// kind of action (what it does is the subject of other properties) and is
+// counted: `acted` for any action, `delivered` for a delivery towards the tun,
+// `closed` for a tunnel teardown. Handshake and recv_error packets are the two
+// unencrypted kinds and are counted apart.
+//@ func (*Interface).closeTunnel
+//@   trusted removes the tunnel from the hostmap
+//@   effect acted closed
+//@ func (*Interface).handleHostRoaming
+//@   trusted may move the tunnel's remote address to the packet's source (roaming)
+//@   effect acted
+//@ func (*Interface).handleOutsideMessagePacket
+//@   trusted firewall check, then delivery of the plaintext to the tun device
+//@   effect acted delivered
+//@ func (*LightHouseHandler).HandleRequest
+//@   trusted lighthouse message processing (may change the lighthouse cache, may reply)
+//@   effect acted
+//@ func (*Interface).send
+//@   trusted encrypts and sends a reply on the tunnel (sendNoMetrics, C13)
+//@   effect acted
+//@ func (*relayManager).HandleControlMsg
+//@   trusted relay control message processing (may change relay state)
+//@   effect acted
+//@ func (*Interface).handleOutsideRelayPacket
+//@   trusted handles an authenticated relay packet: roaming/liveness update, then unwraps into readOutsidePackets or forwards
+//@   effect acted
+//@ func (*HandshakeManager).HandleIncoming
+//@   trusted handshake packets are authenticated by the handshake itself (C05, C10), not by a tunnel key
+//@   effect handshakes
+//@ func (*HandshakeManager).DeleteHostInfo
+//@   trusted removes a pending handshake
+//@   effect acted
+//@ func (*Interface).maybeSendRecvError
+//@   trusted may send a rate-limited recv_error packet; no local tunnel state is touched
+//@   assigns nothing
+//@ func (*MessageMetrics).RxInvalid
+//@   trusted metrics counter
+//@   assigns nothing
+//@ func (*MessageMetrics).Rx
+//@   trusted metrics counter
+//@   assigns nothing
+//@ func github.com/gaissmai/bart.(*liteTable).Contains
+//@   trusted longest-prefix lookup; reads only
+//@   assigns nothing
+//@ func (recvErrorConfig).ShouldRecvError
+//@   trusted configuration predicate on the address; reads only
+//@   assigns nothing
+
+// Hostmap lookups are read-only; a tunnel found there that has a connection
+// state has a well-formed replay window and a receive key (hostmap invariant,
+// established when the tunnel is created: newConnectionStateFromResult).
+//@ func specTunnelOK
+//@   pure
+func specTunnelOK(h *HostInfo) bool {
+	return h == nil || h.ConnectionState == nil || (h.ConnectionState.window != nil && specBitsWF(h.ConnectionState.window) &&
+		h.ConnectionState.dKey != nil && !locked(&h.ConnectionState.decryptLock))
+}
+
+//@ func (*HostMap).QueryRelayIndex
+//@   trusted read-only lookup under the hostmap's read lock
+//@   ensures specTunnelOK(result)
+//@   assigns nothing
+//@ func (*HostMap).QueryIndexCached
+//@   trusted read-only lookup (fills the per-batch cache, which holds the same pointers)
+//@   ensures specTunnelOK(result)
+//@   assigns nothing
+//@ func (*HostMap).QueryReverseIndex
+//@   trusted read-only lookup under the hostmap's read lock
+//@   assigns nothing
+
+//@ func (*connectionManager).In
+//@   props C14
+//@   requires h != nil
+//@   effect acted
+//@   ensures h.in.Load()
+//@   assigns h.in
+
+//@ func (*Interface).readOutsidePackets
+//@   props C12 C14
+//@   closed
+//@   ghost H0 func(uint64) bool
+//@   ghost H func(uint64) bool
+//@   ghost k uint64
+//@   ghost accepted int = 0
+//@   ghost acted int = 0
+//@   ghost delivered int = 0
+//@   ghost closed int = 0
+//@   ghost handshakes int = 0
+//@   ghost recverrors int = 0
+//@   requires f != nil && rxc != nil && rxc.h != nil && f.l != nil && f.hostMap != nil && f.handshakeManager != nil && f.connectionManager != nil && f.relayManager != nil && rxc.lhh != nil && f.myVpnNetworksTable != nil && len(rxc.nb) >= 12
+//@   ensures[gate]    implies(acted >= 1, accepted == 1)
+//@   ensures[once]    accepted <= 1 && delivered <= accepted && closed <= accepted
+//@   ensures[plain]   implies(handshakes >= 1 || recverrors >= 1, acted == 0 && accepted == 0)
+
+// recv_error is the one unauthenticated message that reaches tunnel state:
+// handleRecvError tears the tunnel down when the packet comes from the tunnel's
+// current remote address (or the tunnel has none) and listen.accept_recv_error
+// allows it. The property says only an authenticated close may do that; the
+// clause below states the property and fails on this code (known finding).
+//@ func (*Interface).handleRecvError
+//@   props C14
+//@   closed
+//@   ghost closed int = 0
+//@   ghost acted int = 0
+//@   effect recverrors
+//@   requires f != nil && h != nil && f.l != nil && f.hostMap != nil && f.handshakeManager != nil
+//@   ensures[authclose] closed == 0
+
+// =====================================================================
+// C13 — nonces are never reused and the counter ceiling is enforced
+// =====================================================================
+//
+// Sequential argument, per connection state: the message counter only grows;
+// every encryption is handed, as its nonce, the value the counter was just
+// advanced to (entry value + 1), which is below the ceiling; when the cipher
+// needs ordered nonces (EncryptLockNeeded) the advance and the encryption
+// happen inside one critical section of writeLock, so encryptions reach the
+// cipher in counter order. Together: no counter is used twice, none is at or
+// past the ceiling, all are above the handshake's. The cipher side (no Seal at
+// or past the ceiling, injective nonce encoding) is proved in noiseutil for
+// each implementation; here it is the assumed contract of the interface.
+// Interleavings are not explored: atomic.Uint64.Add hands out distinct values
+// to concurrent callers by definition, and the lock discipline is checked as
+// "held at the call" obligations.
+
+//@ func github.com/slackhq/nebula/noiseutil.(CipherState).EncryptDanger
+//@   trusted interface contract; every implementation is verified against it in noiseutil (C13 there)
+//@   effect encrypted
+//@   ensures implies(n >= RejectAfterMessages, result1 != nil)
+//@   ensures implies(result1 == nil, len(result0) == len(out)+len(plaintext)+self.Overhead() && 0 <= self.Overhead() && self.Overhead() <= 64)
+//@   ensures implies(result1 == nil && len(out)+len(plaintext)+self.Overhead() <= cap(out), sameArray(result0, out) && cap(result0) == cap(out))
+//@   assigns elems(out, 0, cap(out)), elems(nb)
+//@ func github.com/slackhq/nebula/noiseutil.(CipherState).Overhead
+//@   trusted accessor (tag size), a function of the cipher
+//@   ensures 0 <= result && result <= 64 && result == self.Overhead()
+//@   assigns nothing
+//@ func (*connectionManager).Out
+//@   inline
+//@ func (*connectionManager).RelayUsed
+//@   trusted records the relay index as used (its own map under its own lock)
+//@   assigns nothing
+//@ func (*LightHouse).QueryServer
+//@   trusted queues a lighthouse query; does not touch connection states
+//@   assigns nothing
+//@ func (*MessageMetrics).TxExhausted
+//@   trusted metrics counter
+//@   assigns nothing
+//@ func (*MessageMetrics).Tx
+//@   trusted metrics counter
+//@   assigns nothing
+//@ func github.com/slackhq/nebula/udp.(Conn).WriteTo
+//@   trusted network output; does not touch connection states
+//@   assigns nothing
+
+//@ func (*ConnectionState).NextMessageCounter
+//@   props C13
+//@   requires cs != nil && cs.messageCounter.Load() <= RejectAfterMessages
+//@   ensures[value] result0 == old(cs.messageCounter.Load())+1
+//@   ensures[ok]    result1 == (result0 < RejectAfterMessages)
+//@   ensures[state] cs.messageCounter.Load() == ite(result1, result0, RejectAfterMessages) && cs.messageCounter.Load() >= old(cs.messageCounter.Load())
+//@   assigns cs.messageCounter
+
+// sendInsideEncrypt advances the counter without pinning it at the ceiling (the
+// cipher refuses counters at or past it); the 2^40 headroom above the ceiling is
+// what keeps it from wrapping, stated here as the precondition.
+//@ func (*Interface).sendInsideEncrypt
+//@   props C13
+//@   ghost encrypted int = 0
+//@   requires f != nil && hostinfo != nil && ci != nil && ci.eKey != nil && f.l != nil && cap(scratch) >= 16 && len(nb) >= 12
+//@   requires[headroom] ci.messageCounter.Load() != ^uint64(0)
+//@   requires[free]     !locked(&ci.writeLock)
+//@   callrequires EncryptDanger same(arg0, ci.eKey) && arg4 == ci.messageCounter.Load() && arg4 == old(ci.messageCounter.Load())+1 && implies(noiseutil.EncryptLockNeeded, locked(&ci.writeLock))
+//@   ensures[once]     encrypted == 1 && ci.messageCounter.Load() == old(ci.messageCounter.Load())+1
+//@   ensures[ceiling]  implies(old(ci.messageCounter.Load())+1 >= RejectAfterMessages, len(result) == 0)
+//@   ensures[released] !locked(&ci.writeLock)
+
+//@ func (*Interface).dropExhausted
+//@   trusted metrics and one log line
+//@   assigns nothing
+
+//@ func (*Interface).prepareSendVia
+//@   props C13
+//@   ghost encrypted int = 0
+//@   requires f != nil && via != nil && relay != nil && via.ConnectionState != nil && via.ConnectionState.eKey != nil && f.l != nil && f.connectionManager != nil && cap(out) >= 16 && len(nb) >= 12
+//@   requires[inv]  via.ConnectionState.messageCounter.Load() <= RejectAfterMessages
+//@   requires[free] !locked(&via.ConnectionState.writeLock)
+//@   callrequires EncryptDanger same(arg0, via.ConnectionState.eKey) && arg4 == via.ConnectionState.messageCounter.Load() && arg4 == old(via.ConnectionState.messageCounter.Load())+1 && arg4 < RejectAfterMessages && implies(noiseutil.EncryptLockNeeded, locked(&via.ConnectionState.writeLock))
+//@   ensures[once]     encrypted <= 1 && implies(result1 == nil, encrypted == 1)
+//@   ensures[counter]  via.ConnectionState.messageCounter.Load() >= old(via.ConnectionState.messageCounter.Load()) && via.ConnectionState.messageCounter.Load() <= RejectAfterMessages
+//@   ensures[ceiling]  implies(old(via.ConnectionState.messageCounter.Load())+1 >= RejectAfterMessages, encrypted == 0 && result1 != nil)
+//@   ensures[released] !locked(&via.ConnectionState.writeLock)
+
+//@ func (*Interface).SendVia
+//@   trusted encrypts on the relay tunnel's own connection state (prepareSendVia, verified above) and writes to the network
+//@   ensures via.ConnectionState.messageCounter.Load() >= old(via.ConnectionState.messageCounter.Load())
+//@   assigns via.ConnectionState.messageCounter, via.out
+//@ func (*HostMap).QueryVpnAddrsRelayFor
+//@   trusted read-only hostmap lookup under its read lock
+//@   ensures implies(result2 == nil, result0 != nil && result1 != nil && result0.ConnectionState != nil)
+//@   assigns nothing
+//@ func (*RelayState).CopyRelayIps
+//@   trusted snapshot of the relay list under its lock
+//@   assigns nothing
+//@ func (*RelayState).DeleteRelay
+//@   trusted edits the relay list only (abstracted: not connection state)
+//@   assigns nothing
+
+//@ func (*Interface).sendNoMetrics
+//@   props C13
+//@   requires f != nil && ci != nil && hostinfo != nil && f.l != nil && f.connectionManager != nil && f.lightHouse != nil && f.hostMap != nil && len(nb) >= 12 && len(hostinfo.vpnAddrs) >= 1
+//@   requires[buf]  cap(out) >= 96+len(p) && len(p) <= 1<<20 && 0 <= q && q < len(f.writers) && f.writers[q] != nil
+//@   requires[inv]  ci.messageCounter.Load() <= RejectAfterMessages
+//@   requires[free] !locked(&ci.writeLock)
+//@   callrequires EncryptDanger same(arg0, ci.eKey) && arg4 == ci.messageCounter.Load() && arg4 == old(ci.messageCounter.Load())+1 && arg4 < RejectAfterMessages && implies(noiseutil.EncryptLockNeeded, locked(&ci.writeLock))
+//@   ensures[counter]  ci.messageCounter.Load() >= old(ci.messageCounter.Load())
+//@   ensures[released] !locked(&ci.writeLock)
+//@   loop 1 invariant ci.messageCounter.Load() >= old(ci.messageCounter.Load()) && !locked(&ci.writeLock)
 
 // =====================================================================
 // C33 — timer wheel slot arithmetic
